@@ -313,6 +313,7 @@ stun_usage_ice_conncheck_create_reply (StunAgent *agent, StunMessage *req,
 
   if (stun_agent_init_response (agent, msg, buf, len, req) == FALSE) {
     stun_debug ("Unable to create response");
+    val = STUN_MESSAGE_RETURN_NOT_ENOUGH_SPACE;
     goto failure;
   }
   if (compatibility == STUN_USAGE_ICE_COMPATIBILITY_MSN) {
@@ -363,8 +364,10 @@ stun_usage_ice_conncheck_create_reply (StunAgent *agent, StunMessage *req,
 
   /* the stun agent will automatically use the password of the request */
   len = stun_agent_finish_message (agent, msg, NULL, 0);
-  if (len == 0)
+  if (len == 0) {
+    val = STUN_MESSAGE_RETURN_NOT_ENOUGH_SPACE;
     goto failure;
+  }
 
   *plen = len;
   stun_debug (" All done (response size: %u)", (unsigned)len);
